@@ -249,6 +249,12 @@ var c15Slopes = [][2]int64{{25000, 23976}, {23976, 25000}, {30000, 29970}, {2997
 	// drifts of a fraction of a part per million (a slow clock over a long programme)
 	{2000001, 2000000}, {1999999, 2000000}, {10000001, 10000000}, {9999999, 10000000}}
 
+// mulDiv is x*num/den without intermediate overflow (truncated towards zero)
+func mulDiv(x, num, den int64) int64 {
+	v := new(big.Int).Mul(big.NewInt(x), big.NewInt(num))
+	return v.Quo(v, big.NewInt(den)).Int64()
+}
+
 func c15Case(r *fw.Rand) (cs []tcue, a1, d1, a2, d2 int64, slopeKind string) {
 	day := int64(24 * time.Hour)
 	gran := fw.Pick(r, []int64{1, 1, 1000, 1000000, 1000000000})
@@ -439,7 +445,7 @@ func c15CLI(c *fw.Ctx) fw.Outcome {
 	a2 := a1 + int64(r.Range(1000, 600000))*1e6
 	sl := fw.Pick(r, c15Slopes)
 	d1 := a1 + int64(r.Range(0, 1500))*1e6
-	d2 := d1 + (a2-a1)*sl[0]/sl[1]
+	d2 := d1 + mulDiv(a2-a1, sl[0], sl[1])
 	if r.Bool() {
 		// the reference points given latest first: the line through two points does not depend on their order
 		a1, d1, a2, d2 = a2, d2, a1, d1
